@@ -181,6 +181,10 @@ def collector_paths(rng=None, n_chain=40):
         [("coll", "", [("all",)]), ("coll", "&", [("key", "a")]), ("coll", "-", [("key", "b")])],
         [("all",), ("coll", "", [("key", "a")]), ("coll", "-", [("key", "b")])],
         [("idx", 0), ("coll", "", [("all",)]), ("coll", "-", [("key", "a")])],
+        # the SAME hash collected twice, then trimmed: the copy-before-trim must cover every occurrence
+        [("coll", "", [("key", "a")]), ("coll", "+", [("key", "a")]), ("coll", "-", [("key", "a"), ("key", "b")])],
+        [("coll", "", [("all",)]), ("coll", "+", [("key", "a")]), ("coll", "-", [("key", "a"), ("key", "b")])],
+        [("coll", "", [("key", "a")]), ("coll", "+", [("all",)]), ("coll", "-", [("key", "a"), ("key", "x.y")])],
     ]
     out += fixed
     if rng is not None:
@@ -543,6 +547,15 @@ def creation_case(text, prefix, first, rest, creatable, pkind, api, value, sep):
         elif not model_match(model_rest, gen.plain(cont[first[1]])):
             fail("created-part-differs", "", "%s -> element %d is %r" % (ptext, first[1], gen.plain(cont[first[1]])),
                  "%r" % (model_rest,))
+        else:
+            # what the padding elements hold is undocumented, but they are not the created node: a padding
+            # element that IS the created container makes sibling paths exist that nobody asked for
+            created = cont[first[1]]
+            pads = [cont[i] for i in range(old_len, first[1])]
+            if isinstance(created, (dict, list)) and any(p_ is created for p_ in pads):
+                fail("created-part-differs", "padding-shares-the-created-node",
+                     "%s -> %r: padding element and created element are ONE object" % (ptext, gen.plain(cont)),
+                     "only the requested index leads to the created tail")
     # frame: with the created part removed nothing differs from before
     d = diff_class(s0, _strip(s1, cid, first, old_len))
     if d:
